@@ -528,7 +528,11 @@ pub fn run_c04(ctx: &Ctx) -> i32 {
             ctx.violation("stop-ignored", format!("{} | {}", c.p.fen(), cfg.json()), json!({"fen": c.p.fen(), "config": cfg.json(), "nodes": run.nodes, "explanation": "with the flag polled at every node the search still ran 200000 nodes past the stop instant"}));
             return;
         }
-        if run.cancelled && k != 0 && run.nodes > k + c.workers {
+        // exact bound only for one worker: with two free-running OS threads the other worker
+        // may enter nodes between the k-th node being counted and the flag being stored (the
+        // exact interleavings of two workers are loom's part); there a generous bound applies
+        let bound = if c.workers == 1 { k + 1 } else { k + 50_000 };
+        if run.cancelled && k != 0 && run.nodes > bound {
             ctx.violation("stop-late", format!("{} | {}", c.p.fen(), cfg.json()), json!({"fen": c.p.fen(), "config": cfg.json(), "nodes": run.nodes, "cancel_at": k}));
         }
     });
@@ -584,7 +588,7 @@ pub fn run_c04(ctx: &Ctx) -> i32 {
             ctx.violation("stopped-search-reports-nothing", format!("{} | stop at node {}", p.fen(), k), json!({"fen": p.fen(), "config": cfg.json()}));
         }
     });
-    ctx.sample(json!({"position": menu[0].fen(), "stop_instants": "every node index 0..=N with poll interval 1, depth limits 1,2,3,none, workers 1,2", "checked": "returns, no panic, every reported line legal, at most `workers` nodes after the stop"}));
+    ctx.sample(json!({"position": menu[0].fen(), "stop_instants": "every node index 0..=N with poll interval 1, depth limits 1,2,3,none, workers 1,2", "checked": "returns, no panic, every reported line legal; with one worker at most one more node is entered after the stop"}));
     ctx.sample(json!({"position": roots[menu.len() + 2].fen(), "stop_at_node": 10000, "poll": "shipped (10000)", "checked": "returns within the step bound"}));
     let schedules = loom_part(ctx, crate::loomrun::jobs_c04(quick));
     let exhaustive = ctx.no_caps();
@@ -1050,6 +1054,17 @@ pub fn run_c19(ctx: &Ctx) -> i32 {
     ctx.add("distinct_event_sequences", distinct.len() as u64);
     // different seeds must be able to give different sequences (the seed is really used)
     ctx.sample(json!({"position": positions[0].fen(), "seed": seeds[0], "depth": 3, "event_sequence": first[2].lock().unwrap().clone()}));
+    // the command-line front end: `weechess evaluate --seed` twice in separate processes
+    if std::path::Path::new(&crate::ucidrv::cli_path()).exists() {
+        let sample: Vec<&Pos> = positions.iter().step_by((positions.len() / if quick { 12 } else { 60 }).max(1)).collect();
+        par_for(ctx, &sample, |p, _| {
+            for seed in [0u64, 5] {
+                crate::clichecks::evaluate_cli_twice(ctx, p, 3, seed);
+            }
+        });
+    } else {
+        ctx.note("CLI binary not built: `weechess evaluate --seed` not exercised in this run");
+    }
     let schedules = loom_part(ctx, crate::loomrun::jobs_c19(quick));
     let exh = ctx.no_caps();
     finish(
